@@ -157,6 +157,22 @@ theorem put_ok {c : Cfg} {s s' : St} {p st : Piece} {b : Bool} (hw : c.WF) (h : 
       obtain ⟨h1, h2⟩ := fallback_ok hw h hf
       exact ⟨h1, by simp [h2], fun _ => room_none hw h hr⟩
 
+/-- a report that `put` placed as itself fits an empty message -/
+theorem put_false_fits {c : Cfg} {s s' : St} {p st : Piece} (hw : c.WF) (h : Inv c s)
+    (hp : put c s p st = .ok (s', false)) : c.hdr + c.arrOpen + p.size ≤ c.limit := by
+  unfold put at hp
+  cases hr : room c s p.size with
+  | some s1 =>
+    obtain ⟨h1, _, h3⟩ := room_some hw h hr
+    have := h1.usedEq
+    omega
+  | none =>
+    rw [hr] at hp
+    simp only at hp
+    cases hf : fallback c s st with
+    | error e => rw [hf] at hp; cases hp
+    | ok s2 => rw [hf] at hp; simp at hp
+
 /-- a report that fits an empty chunk is always placed, as itself -/
 theorem put_fits {c : Cfg} {s : St} (p st : Piece) (hw : c.WF) (h : Inv c s)
     (hf : c.hdr + c.arrOpen + p.size ≤ c.limit) : ∃ s', put c s p st = .ok (s', false) := by
@@ -195,21 +211,23 @@ theorem elemPieces_cons (id k e : Nat) (es : List Nat) :
     elemPieces id k (e :: es) = .listElem id k e :: elemPieces id (k + 1) es := by
   simp [elemPieces, List.zipIdx_cons]
 
-/-- the streamed elements: a prefix of the list (all of it unless an element fits no message and an
-error status cuts the list) -/
+/-- the streamed elements: a prefix of the list — all of it, or, when the element at index `n`
+fits no message, exactly the `n` elements before it (each of which fits) followed by an error status -/
 theorem putElems_ok {c : Cfg} (hw : c.WF) (id st : Nat) : ∀ (es : List Nat) (k : Nat) (s s' : St) (b : Bool),
     Inv c s → putElems c id st k es s = .ok (s', b) →
     Inv c s' ∧ ∃ n, n ≤ es.length ∧
       s'.flat = s.flat ++ elemPieces id k (es.take n) ++ (if b then [.status id st] else []) ∧
       (b = false → n = es.length) ∧
-      (b = true → ∃ e ∈ es, c.limit < c.hdr + c.arrOpen + e) := by
+      (b = true → ∃ e ∈ es, c.limit < c.hdr + c.arrOpen + e) ∧
+      (∀ e ∈ es.take n, c.hdr + c.arrOpen + e ≤ c.limit) ∧
+      (b = true → ∃ hn : n < es.length, c.limit < c.hdr + c.arrOpen + es[n]) := by
   intro es
   induction es with
   | nil =>
     intro k s s' b h hp
     simp only [putElems, Except.ok.injEq, Prod.mk.injEq] at hp
     obtain ⟨rfl, rfl⟩ := hp
-    exact ⟨h, 0, by simp, by simp [elemPieces_nil], by simp, by simp⟩
+    exact ⟨h, 0, by simp, by simp [elemPieces_nil], by simp, by simp, by simp, by simp⟩
   | cons e es ih =>
     intro k s s' b h hp
     simp only [putElems] at hp
@@ -223,20 +241,33 @@ theorem putElems_ok {c : Cfg} (hw : c.WF) (id st : Nat) : ∀ (es : List Nat) (k
       | true =>
         simp only [Except.ok.injEq, Prod.mk.injEq] at hp
         obtain ⟨rfl, rfl⟩ := hp
-        refine ⟨h1, 0, by simp, ?_, by simp, ?_⟩
+        have hlt : c.limit < c.hdr + c.arrOpen + e := by simpa [Piece.size] using j1 rfl
+        refine ⟨h1, 0, by simp, ?_, by simp, ?_, by simp, ?_⟩
         · simpa [elemPieces_nil] using f1
         · intro _
-          exact ⟨e, by simp, by simpa [Piece.size] using j1 rfl⟩
+          exact ⟨e, by simp, hlt⟩
+        · intro _
+          exact ⟨by simp, by simpa using hlt⟩
       | false =>
         simp only at hp
-        obtain ⟨h2, n, hn, f2, c2, j2⟩ := ih (k + 1) s1 s' b h1 hp
-        refine ⟨h2, n + 1, by simp; omega, ?_, ?_, ?_⟩
+        have hfit : c.hdr + c.arrOpen + e ≤ c.limit := by
+          simpa [Piece.size] using put_false_fits hw h hput
+        obtain ⟨h2, n, hn, f2, c2, j2, a2, x2⟩ := ih (k + 1) s1 s' b h1 hp
+        refine ⟨h2, n + 1, by simp; omega, ?_, ?_, ?_, ?_, ?_⟩
         · rw [f2, f1]
           simp [List.take_succ_cons, elemPieces_cons]
         · intro hb; simp [c2 hb]
         · intro hb
           obtain ⟨e', he', hlt⟩ := j2 hb
           exact ⟨e', by simp [he'], hlt⟩
+        · intro e' he'
+          simp only [List.take_succ_cons, List.mem_cons] at he'
+          rcases he' with rfl | he'
+          · exact hfit
+          · exact a2 e' he'
+        · intro hb
+          obtain ⟨hn', hlt⟩ := x2 hb
+          exact ⟨by simp; omega, by simpa using hlt⟩
 
 theorem putElems_fits {c : Cfg} (hw : c.WF) (id st : Nat) : ∀ (es : List Nat) (k : Nat) (s : St), Inv c s →
     (∀ e ∈ es, c.hdr + c.arrOpen + e ≤ c.limit) → ∃ s', putElems c id st k es s = .ok (s', false) := by
@@ -282,33 +313,169 @@ theorem putElems_err {c : Cfg} (id st : Nat) : ∀ (es : List Nat) (k : Nat) (s 
       | true => cases hp
       | false => exact ih (k + 1) s1 e hp
 
-/-- the end-of-list probe adds no report (it may close the chunk), unless its header fits no
-message: then an error status follows the complete list -/
+/-- the end-of-list probe adds no report (it may close the chunk) — its header then fits an empty
+message —, unless its header fits no message: then an error status follows the complete list -/
 theorem endProbe_ok {c : Cfg} (hw : c.WF) {s s' : St} (id probe st : Nat) (h : Inv c s)
     (hp : endProbe c s id probe st = .ok s') :
-    Inv c s' ∧ (s'.flat = s.flat ∨
+    Inv c s' ∧ ((s'.flat = s.flat ∧ c.hdr + c.arrOpen + probe ≤ c.limit) ∨
       (s'.flat = s.flat ++ [.status id st] ∧ c.limit < c.hdr + c.arrOpen + probe)) := by
   unfold endProbe at hp
   cases hr : room c s probe with
   | some s1 =>
     rw [hr] at hp
     injection hp with hp; subst hp
-    obtain ⟨h1, h2, _⟩ := room_some hw h hr
-    exact ⟨h1, .inl h2⟩
+    obtain ⟨h1, h2, h3⟩ := room_some hw h hr
+    have := h1.usedEq
+    exact ⟨h1, .inl ⟨h2, by omega⟩⟩
   | none =>
     rw [hr] at hp
     obtain ⟨h1, h2⟩ := fallback_ok hw h hp
     exact ⟨h1, .inr ⟨h2, room_none hw h hr⟩⟩
 
-/-- a failed / cut item is justified: one of its reports fits no message -/
-def Justified (c : Cfg) (it : Item) (o : Out) : Prop := o.complete = false → it.fits c = false
+theorem getD_lt (l : List Nat) (k d : Nat) (h : k < l.length) : l.getD k d = l[k] := by
+  simp [List.getD_eq_getElem?_getD, h]
+
+theorem getD_ge (l : List Nat) (k d : Nat) (h : l.length ≤ k) : l.getD k d = d := by
+  simp [List.getD_eq_getElem?_getD, h]
+
+/-- `n` bytes of report fit a message that holds nothing else -/
+def Cfg.holds (c : Cfg) (n : Nat) : Prop := c.hdr + c.arrOpen + n ≤ c.limit
+
+instance (c : Cfg) (n : Nat) : Decidable (c.holds n) := by unfold Cfg.holds; infer_instance
+
+/-- **an outcome is justified: an error status stands exactly for the report that fits no message.**
+* a scalar comes whole iff its report fits an empty message, is `failed` iff it does not (never
+  `split` / `cut`);
+* a list comes `whole` only if the single report fits a message; `split` (streamed completely) only
+  if its start, every element report and the header of the end-of-list read fit a message;
+  `failed` exactly when the report that starts the streamed list fits no message; `cut k` exactly
+  when the start and the first `k` element reports fit a message and the read of index `k` — the
+  report of element `k`, or for `k = length` the header of the end-of-list read — fits none.
+So a list with an oversize element is neither replaced by a status as a whole nor cut anywhere but at
+the first oversize element (`justified_unique`, `justified_cut_first`). -/
+def Justified (c : Cfg) : Item → Out → Prop
+  | .scalar _ sz _, .whole => c.holds sz
+  | .scalar _ sz _, .failed => ¬ c.holds sz
+  | .scalar _ _ _, .split => False
+  | .scalar _ _ _, .cut _ => False
+  | .list _ whole _ _ _ _ _, .whole => c.holds whole
+  | .list _ _ empty elems probe _ _, .split => c.holds empty ∧ (∀ e ∈ elems, c.holds e) ∧ c.holds probe
+  | .list _ _ empty _ _ _ _, .failed => ¬ c.holds empty
+  | .list _ _ empty elems probe _ _, .cut k =>
+    c.holds empty ∧ k ≤ elems.length ∧ (∀ e ∈ elems.take k, c.holds e) ∧ ¬ c.holds (elems.getD k probe)
+
+instance (c : Cfg) (it : Item) (o : Out) : Decidable (Justified c it o) := by
+  cases it <;> cases o <;> unfold Justified <;> infer_instance
+
+/-- the former, weaker reading of `Justified` (kept as a consequence): an incomplete outcome means that
+SOME report of the item fits no message -/
+theorem Justified.weak {c : Cfg} {it : Item} {o : Out} (h : Justified c it o) :
+    o.complete = false → it.fits c = false := by
+  intro hc
+  cases it with
+  | scalar id sz st =>
+    cases o with
+    | whole => simp [Out.complete] at hc
+    | split => simp [Out.complete] at hc
+    | failed => simpa [Justified, Cfg.holds, Item.fits] using h
+    | cut k => exact h.elim
+  | list id whole empty elems probe st stE =>
+    cases o with
+    | whole => simp [Out.complete] at hc
+    | split => simp [Out.complete] at hc
+    | failed =>
+      simp only [Justified, Cfg.holds] at h
+      simp only [Item.fits, Bool.and_eq_false_iff, decide_eq_false_iff_not]
+      left; left; exact h
+    | cut k =>
+      obtain ⟨_, hk, _, hx⟩ := h
+      simp only [Cfg.holds] at hx
+      simp only [Item.fits, Bool.and_eq_false_iff, decide_eq_false_iff_not]
+      by_cases hlt : k < elems.length
+      · right
+        rw [List.all_eq_false]
+        refine ⟨elems[k], List.getElem_mem hlt, ?_⟩
+        rw [getD_lt _ _ _ hlt] at hx
+        simpa using hx
+      · left; right
+        rw [getD_ge _ _ _ (by omega)] at hx
+        exact hx
+
+/-- conversely: an item all of whose reports fit a message is never failed / cut -/
+theorem Justified.complete_of_fits {c : Cfg} {it : Item} {o : Out} (h : Justified c it o)
+    (hf : it.fits c = true) : o.complete = true := by
+  cases hc : o.complete with
+  | true => rfl
+  | false => have := h.weak hc; rw [hf] at this; cases this
+
+/-- a streamed list is cut at the FIRST read that fits no message: two justified cuts of the same list
+are at the same index -/
+theorem justified_cut_first {c : Cfg} {id whole empty : Nat} {elems : List Nat} {probe st stE k j : Nat}
+    (hk : Justified c (.list id whole empty elems probe st stE) (.cut k))
+    (hj : Justified c (.list id whole empty elems probe st stE) (.cut j)) : k = j := by
+  obtain ⟨_, hk1, hk2, hk3⟩ := hk
+  obtain ⟨_, hj1, hj2, hj3⟩ := hj
+  rcases Nat.lt_trichotomy k j with hlt | heq | hgt
+  · exfalso
+    have hkl : k < elems.length := by omega
+    rw [getD_lt _ _ _ hkl] at hk3
+    exact hk3 (hj2 _ (List.mem_take_iff_getElem.mpr ⟨k, by omega, rfl⟩))
+  · exact heq
+  · exfalso
+    have hjl : j < elems.length := by omega
+    rw [getD_lt _ _ _ hjl] at hj3
+    exact hj3 (hk2 _ (List.mem_take_iff_getElem.mpr ⟨j, by omega, rfl⟩))
+
+/-- **the incomplete outcome is determined by the sizes**: two justified outcomes of the same item
+that both use an error status are the same outcome (same place of the status) -/
+theorem justified_unique {c : Cfg} {it : Item} {o o2 : Out} (h : Justified c it o) (h2 : Justified c it o2)
+    (hc : o.complete = false) (hc2 : o2.complete = false) : o = o2 := by
+  cases it with
+  | scalar id sz st =>
+    cases o <;> cases o2 <;> simp_all [Justified, Out.complete]
+  | list id whole empty elems probe st stE =>
+    cases o with
+    | whole => simp [Out.complete] at hc
+    | split => simp [Out.complete] at hc
+    | failed =>
+      cases o2 with
+      | whole => simp [Out.complete] at hc2
+      | split => simp [Out.complete] at hc2
+      | failed => rfl
+      | cut j => exact absurd h2.1 h
+    | cut k =>
+      cases o2 with
+      | whole => simp [Out.complete] at hc2
+      | split => simp [Out.complete] at hc2
+      | failed => exact absurd h.1 h2
+      | cut j => rw [justified_cut_first h h2]
+
+/-- a streamed-complete and an incomplete outcome exclude each other -/
+theorem justified_split_excl {c : Cfg} {it : Item} {o : Out} (h : Justified c it .split) (h2 : Justified c it o) :
+    o.complete = true := by
+  cases it with
+  | scalar id sz st => exact h.elim
+  | list id whole empty elems probe st stE =>
+    obtain ⟨h1, h3, h4⟩ := h
+    cases o with
+    | whole => rfl
+    | split => rfl
+    | failed => exact absurd h1 h2
+    | cut k =>
+      exfalso
+      obtain ⟨_, hk, _, hx⟩ := h2
+      by_cases hlt : k < elems.length
+      · rw [getD_lt _ _ _ hlt] at hx
+        exact hx (h3 _ (List.getElem_mem hlt))
+      · rw [getD_ge _ _ _ (by omega)] at hx
+        exact hx h4
 
 theorem pieces_cut_all (id whole empty : Nat) (elems : List Nat) (probe st stE : Nat) (n : Nat) :
     (Item.list id whole empty elems probe st stE).pieces (.cut n) =
       .listStart id empty :: (elemPieces id 0 (elems.take n) ++ [.status id stE]) := rfl
 
 /-- one item contributes exactly its reports — whole, streamed, or with an error status standing
-for what fits no message — once, in order -/
+for exactly the report that fits no message — once, in order -/
 theorem putItem_ok {c : Cfg} (hw : c.WF) {s s' : St} {it : Item} (h : Inv c s)
     (hp : putItem c s it = .ok s') :
     Inv c s' ∧ ∃ o, s'.flat = s.flat ++ it.pieces o ∧ Justified c it o := by
@@ -323,20 +490,23 @@ theorem putItem_ok {c : Cfg} (hw : c.WF) {s s' : St} {it : Item} (h : Inv c s)
       injection hp with hp; subst hp
       obtain ⟨h1, f1, j1⟩ := put_ok hw h hput
       cases b with
-      | false => exact ⟨h1, .whole, by simpa [Item.pieces] using f1, by simp [Justified, Out.complete]⟩
+      | false =>
+        refine ⟨h1, .whole, by simpa [Item.pieces] using f1, ?_⟩
+        simpa [Justified, Cfg.holds, Piece.size] using put_false_fits hw h hput
       | true =>
         refine ⟨h1, .failed, by simpa [Item.pieces] using f1, ?_⟩
-        intro _
         have := j1 rfl
         simp only [Piece.size] at this
-        simp only [Item.fits, decide_eq_false_iff_not]; omega
+        simp only [Justified, Cfg.holds]; omega
   | list id whole empty elems probe st stE =>
     simp only [putItem] at hp
     split at hp
     · rename_i hfit
       injection hp with hp; subst hp
       obtain ⟨h1, f1⟩ := write_ok (.wholeList id whole elems) h (by simpa [Piece.size] using hfit)
-      exact ⟨h1, .whole, by simpa [Item.pieces] using f1, by simp [Justified, Out.complete]⟩
+      refine ⟨h1, .whole, by simpa [Item.pieces] using f1, ?_⟩
+      have := h.usedEq
+      simp only [Justified, Cfg.holds]; omega
     · cases hput : put c s (.listStart id empty) (.status id st) with
       | error err => rw [hput] at hp; cases hp
       | ok r =>
@@ -348,44 +518,45 @@ theorem putItem_ok {c : Cfg} (hw : c.WF) {s s' : St} {it : Item} (h : Inv c s)
           simp only at hp
           injection hp with hp; subst hp
           refine ⟨h1, .failed, by simpa [Item.pieces] using f1, ?_⟩
-          intro _
           have := j1 rfl
           simp only [Piece.size] at this
-          simp only [Item.fits, Bool.and_eq_false_iff, decide_eq_false_iff_not]
-          left; left; omega
+          simp only [Justified, Cfg.holds]; omega
         | false =>
           simp only at hp
+          have hstart : c.holds empty := by
+            simpa [Cfg.holds, Piece.size] using put_false_fits hw h hput
           cases hel : putElems c id stE 0 elems s1 with
           | error err => rw [hel] at hp; cases hp
           | ok r2 =>
             obtain ⟨s2, b2⟩ := r2
             rw [hel] at hp
-            obtain ⟨h2, n, hn, f2, c2, j2⟩ := putElems_ok hw id stE elems 0 s1 s2 b2 h1 hel
+            obtain ⟨h2, n, hn, f2, c2, _, a2, x2⟩ := putElems_ok hw id stE elems 0 s1 s2 b2 h1 hel
             cases b2 with
             | true =>
               simp only at hp
               injection hp with hp; subst hp
               refine ⟨h2, .cut n, ?_, ?_⟩
               · rw [f2, f1, pieces_cut_all]; simp
-              · intro _
-                obtain ⟨e, he, hlt⟩ := j2 rfl
-                simp only [Item.fits, Bool.and_eq_false_iff, decide_eq_false_iff_not]
-                right
-                rw [List.all_eq_false]
-                exact ⟨e, he, by simp; omega⟩
+              · obtain ⟨hlt, hbig⟩ := x2 rfl
+                refine ⟨hstart, hn, a2, ?_⟩
+                rw [getD_lt _ _ _ hlt]
+                simp only [Cfg.holds]; omega
             | false =>
               simp only at hp
               obtain ⟨h3, f3⟩ := endProbe_ok hw id probe stE h2 hp
               have hn' := c2 rfl
-              rcases f3 with f3 | ⟨f3, j3⟩
-              · refine ⟨h3, .split, ?_, by simp [Justified, Out.complete]⟩
-                rw [f3, f2, f1, hn']
-                simp [Item.pieces]
+              rcases f3 with ⟨f3, j3⟩ | ⟨f3, j3⟩
+              · refine ⟨h3, .split, ?_, ?_⟩
+                · rw [f3, f2, f1, hn']
+                  simp [Item.pieces]
+                · refine ⟨hstart, ?_, j3⟩
+                  intro e he
+                  exact a2 e (by rw [hn', List.take_length]; exact he)
               · refine ⟨h3, .cut n, ?_, ?_⟩
                 · rw [f3, f2, f1, pieces_cut_all]; simp
-                · intro _
-                  simp only [Item.fits, Bool.and_eq_false_iff, decide_eq_false_iff_not]
-                  left; right; omega
+                · refine ⟨hstart, hn, a2, ?_⟩
+                  rw [getD_ge _ _ _ (by omega)]
+                  simp only [Cfg.holds]; omega
 
 /-- the largest error status that may stand for (a part of) the item -/
 def Item.st : Item → Nat
